@@ -655,7 +655,7 @@ def shutdown_during_accept_fault(ctx, workdir):
 
 def run_c19(ctx):
     ctx.rule = ("real server binary: SIGINT / SIGTERM x num_workers {1,4,16} x client_stats off/on x delays swept over 0..300 ms "
-                "relative to the start of load x {idle, closed-loop load, open-loop flood, junk-only traffic, silent / half-open TCP peer on the health port}; exit status, time to exit, panic "
+                "relative to the start of load x {idle, closed-loop load, open-loop flood, junk-only traffic, silent / half-open TCP peer on the health port, the signal sent twice, statistics published under load, accept() failing with EMFILE}; exit status, time to exit, panic "
                 "output, validity of the last replies; non-trivial = distinct (signal, workers, stats, mode, delay) case under load")
     vlib.prepare(ctx, need_bins=True)
     r = ctx.rng
@@ -677,6 +677,8 @@ def run_c19(ctx):
     # per-client statistics published every 100 ms (status_interval 1) under continuous load for longer than the
     # shared queue can absorb without the reporter (2 slots per worker, drained once a second): the signal
     # arrives while the workers are publishing
+    cases.append((signal.SIGINT, 2, False, "double", 0.2))
+    cases.append((signal.SIGTERM, 1, True, "double", 0.1))
     cases.append((signal.SIGINT, 1, True, "statload", 0.65))
     cases.append((signal.SIGTERM, 1, True, "statload", 0.85))
     cases.append((signal.SIGTERM, 2, True, "statload", 1.3))
@@ -734,6 +736,11 @@ def run_c19(ctx):
                     except OSError:
                         pass
             time.sleep(delay)
+            if mode == "double":
+                # the same signal twice in quick succession (an impatient operator, a supervisor that repeats it):
+                # the second one arrives before the workers have come round to the flag
+                srv.p.send_signal(sig)
+                time.sleep(0.03)
             rc, dt, log = srv.stop(sig=sig, timeout=5.0 if mode != "flood" else 3.0)
             stop_evt.set()
             if th:
